@@ -44,7 +44,7 @@ package leader
 //@ field kvElection.disconnectHandler  immutable
 //@ field kvElection.mu                 sync
 //@ field kvElection.wg                 sync
-//@ field kvElection.isLeader           atomic write_under(mu) props C18,C02 onstore C02.claim_only_in_becomeLeader: v ==> caller.inBecomeLeader
+//@ field kvElection.isLeader           atomic write_under(mu) props C18,C02,C19,C08,C03 onstore C02.claim_only_in_becomeLeader: v ==> caller.inBecomeLeader
 //@ field kvElection.state              atomic write_under(mu) type string props C18 inv C18.state_domain: v == "INIT" || v == "CANDIDATE" || v == "LEADER" || v == "FOLLOWER" || v == "DEMOTED" || v == "STOPPED"
 //@ field kvElection.token              atomic write_under(mu) type string props C05,C01,C02 inv C05.token_is_published: OwnTok(v) || (v == "" && !this.revSet)
 //@ field kvElection.leaderID           atomic type string props C18 onstore C18.leader_consistent_id: v == this.cfg.InstanceID || (held(this.mu) == 2 && !this.isLeader)
@@ -141,7 +141,7 @@ package leader
 //@   on store kvElection.isLeader as s when !s.value set $claimCleared = true
 //@   on call updateIsLeaderMetric set $gaugeFresh = true
 //@   on call kvElection.cancel assert C19+C09.election_ctx_cancelled_only_by_stop_paths: caller.mayCancelElection
-//@   on call kvElection.termCancel assert C03+C07+C19+C02+C08.term_ctx_cancelled_only_when_claim_cleared: caller.mayCancelTerm
+//@   on call kvElection.termCancel assert C03+C07+C19+C02+C08+C13.term_ctx_cancelled_only_when_claim_cleared: caller.mayCancelTerm
 //@   ghost $tokenDrawn Bool = false
 //@   ghost $lastDrawn Int = 0
 //@   on call uuid.String as u set $tokenDrawn = u.random
@@ -154,6 +154,7 @@ package leader
 //@   on call KeyValue.Delete assert C03+C06+C09+C11+C13.store_calls_outside_the_mutex: nheld(kvElection.mu) == 0
 //@   on call KeyValue.Watch assert C03+C06+C09+C11+C13.store_calls_outside_the_mutex: nheld(kvElection.mu) == 0
 //@   on call RevisionDeleter.DeleteRevision assert C03+C06+C09+C11+C13.store_calls_outside_the_mutex: nheld(kvElection.mu) == 0
+//@   on call ConnectionMonitor.Stop assert C11+C09.the_monitor_is_stopped_outside_the_mutex: nheld(kvElection.mu) == 0
 // The label set of each metric is fixed by its vector (metrics.go): an extra label panics in the Prometheus client.
 //@   on call Metrics.SetIsLeader as c assert C13+C18.metric_labels_are_the_declared_ones: keysWithin(c.labels, "role", "instance_id", "bucket")
 //@   on call Metrics.SetConnectionStatus as c assert C13+C18.metric_labels_are_the_declared_ones: keysWithin(c.labels, "role", "instance_id", "bucket")
@@ -519,7 +520,7 @@ package leader
 //@   loop 0 invariant C17.round_shape: 0 <= $v && $v <= 3 && attempts == $v && jitterWaited && jitterArmed && (attempts == 0 || waitedSince) && !bfCalled && (attempts > 0 ==> lastErrNonNil)
 
 //@ func (e *kvElection) attemptAcquire()
-//@   tags C01 C05 C10 C02 C13 C06
+//@   tags C01 C05 C10 C02 C13 C06 C17
 //@   ghost tokDrawn Bool = false
 //@   ghost myTok Int = 0
 //@   on call uuid.String as c set myTok = c.result
@@ -541,7 +542,7 @@ package leader
 //@   ensures C06+C10.nil_result_means_claim: result == nil ==> sawLeader || calls(becomeLeader) == 1 || tkNil
 
 //@ func (e *kvElection) attemptPriorityTakeover(payloadBytes)
-//@   tags C01 C10 C13 C05
+//@   tags C01 C10 C13 C05 C17
 //@   requires C10+C01.gate: e.cfg.AllowPriorityTakeover
 //@   requires C01+C05+C10.takeover_payload: IDOf(payloadBytes) == e.cfg.InstanceID && PrioOf(payloadBytes) == e.cfg.Priority && FreshTok(TokenOf(payloadBytes)) && ParseOK(payloadBytes)
 //@   ghost tkEntry Int = 0
@@ -620,9 +621,9 @@ package leader
 //@   on store kvElection.watcherRunning as s when !inspawn() set wrArmed = s.value
 //@   on call watchLoop assert C13+C06.one_watch_loop_at_a_time: inspawn() && !watcherSeen && wrArmed
 //@   on unlock kvElection.mu assert C03+C02+C04+C19.claim_cleared_at_unlock: !unlessLeader ==> !e.isLeader
-//@   on store kvElection.isLeader assert C07+C08+C03+C18+C19.settling_never_clears_a_claim: unlessLeader ==> !cleared
+//@   on store kvElection.isLeader assert C07+C08+C03+C18+C19+C13.settling_never_clears_a_claim: unlessLeader ==> !cleared
 //@   ensures C07.settling_reports_nothing_cleared: unlessLeader ==> !result
-//@   ensures C08+C03+C19+C04.reports_cleared: !unlessLeader ==> result == cleared
+//@   ensures C08+C03+C19+C04+C13.reports_cleared: !unlessLeader ==> result == cleared
 //@   ensures C19.cancelled_on_demotion: cleared && !unlessLeader ==> termCancelled
 //@   ghost stateL Int = 0
 //@   on lock kvElection.mu set stateL = e.state
@@ -631,6 +632,7 @@ package leader
 
 //@ func (e *kvElection) Stop()
 //@   tags C09 C08 C18 C01 C20
+//@   ghost mayEndGrace Bool = true
 //@   flag spawn_exempt
 //@   ghost wasLeaderL Bool = false
 //@   ghost ctxNilL Bool = false
@@ -665,6 +667,7 @@ package leader
 
 //@ func (e *kvElection) StopWithContext(ctx, opts)
 //@   tags C09 C08 C18 C01 C20
+//@   ghost mayEndGrace Bool = true
 //@   flag spawn_exempt
 //@   requires C09.nil_ctx: ctx != nil
 //@   ghost wasLeaderL Bool = false
@@ -1159,12 +1162,14 @@ package leader
 
 //@ func (d *disconnectHandler) stop()
 //@   tags C11 C20
+//@   requires C11.the_grace_period_ends_only_with_a_stop_or_a_reconnect: caller.mayEndGrace
 //@   ghost g0 Int = 0
 //@   on lock disconnectHandler.mu set g0 = d.generation
 //@   on unlock disconnectHandler.mu assert C11.stop_invalidates_pending_expiry: d.generation != g0
 
 //@ func (e *kvElection) handleReconnect()
 //@   tags C11 C20 C09
+//@   ghost mayEndGrace Bool = true
 //@   ghost sawLeader Bool = false
 //@   on load kvElection.isLeader as l set sawLeader = l.value
 //@   ensures C11.reconnect_verifies: sawLeader ==> scalls(verifyLeadershipAfterReconnect) == 1
@@ -1321,10 +1326,10 @@ package leader
 //@   tags C14
 //@   ghost r0 Int = 0
 //@   ghost r1 Int = 0
-//@   on call nats.KeyValue.Watch as c assert C14.watch_passthrough: c.recv == a.kv && c.keys == key && isnil(c.opts)
+//@   on call nats.KeyValue.Watch as c assert C14+C07+C13.watch_passthrough: c.recv == a.kv && c.keys == key && isnil(c.opts)
 //@   on ret nats.KeyValue.Watch as c set r0 = c.result0
 //@   on ret nats.KeyValue.Watch as c set r1 = c.result1
-//@   ensures C14.watch_passthrough: calls(nats.KeyValue.Watch) == 1
+//@   ensures C14+C07+C13.watch_passthrough: calls(nats.KeyValue.Watch) == 1
 //@   ensures C14.watch_result: result1 == r1 && (r1 == nil ==> result0 != nil && istype(result0, *natsWatcherAdapter) && result0.(*natsWatcherAdapter).watcher == r0)
 
 //@ func (a *natsEntryAdapter) Value()
